@@ -28,8 +28,15 @@ func stripQuantified(query string) string {
 
 // candidateModel asks for a model of the negated obligation under the quantifier-free part of
 // the assumptions.
-func candidateModel(workDir, name, query string) (SolverResult, bool) {
+func candidateModel(workDir, name, query string, hints []string) (SolverResult, bool) {
 	q := stripQuantified(query)
+	if len(hints) > 0 {
+		// small inputs first (models only: an unsat answer under the hints proves nothing)
+		hq := strings.Replace(q, "; obligation ", strings.Join(hints, "\n")+"\n; obligation ", 1)
+		if r := runQuery(workDir, name+".candidate-small", hq, 5, false); r.Status == "sat" {
+			return r, true
+		}
+	}
 	r := runQuery(workDir, name+".candidate", q, 5, false)
 	return r, r.Status == "sat"
 }
